@@ -2542,7 +2542,6 @@ public:
   /// Generate actual parameters that contain calls.
   void genCallActuals(const std::vector<std::unique_ptr<Expr>> &args,
                       const std::string &currentScope) {
-    size_t stackOffset = currentFrame->getOffset();
     for (auto &arg : args) {
       if (containsCall(arg)) {
         // For each actual expression containing one or more calls, allocate a
@@ -2555,13 +2554,14 @@ public:
         currentFrame->incOffset(1);
       }
     }
-    // Restore the stack pointer offset so loadActuals can sequence through
-    // the call actual locations again.
-    currentFrame->setOffset(stackOffset);
+    // The frame offset is left past the saved values so that they stay
+    // reserved while loadActuals evaluates the remaining actuals.
   }
 
+  /// Store the actual parameters. tempOffset is the frame offset of the first
+  /// value saved by genCallActuals.
   void loadActuals(const std::vector<std::unique_ptr<Expr>> &args, size_t parameterOffset,
-                   const std::string &currentScope) {
+                   const std::string &currentScope, size_t tempOffset) {
     size_t parameterIndex = parameterOffset;
     for (auto &arg : args) {
       if (containsCall(arg)) {
@@ -2569,8 +2569,8 @@ public:
         // expression value saved to a temporary stack location and store it
         // to the actual parameter location.
         genLDAM(SP_OFFSET);
-        genLDAI_FB(currentFrame, -currentFrame->getOffset());
-        currentFrame->incOffset(1);
+        genLDAI_FB(currentFrame, -tempOffset);
+        tempOffset++;
         genLDBM(SP_OFFSET);
         genSTAI(parameterIndex);
       } else {
@@ -2589,7 +2589,7 @@ public:
     auto stackOffset = currentFrame->getOffset();
     // Actual parameters.
     genCallActuals(args, currentScope);
-    loadActuals(args, FB_PARAM_OFFSET_FUNC, currentScope);
+    loadActuals(args, FB_PARAM_OFFSET_FUNC, currentScope, stackOffset);
     currentFrame->incOffset(args.size() + FB_PARAM_OFFSET_FUNC);
     // Perform syscall.
     genLDAC(syscallId);
@@ -2605,7 +2605,7 @@ public:
     auto stackOffset = currentFrame->getOffset();
     // Actual parameters.
     genCallActuals(args, currentScope);
-    loadActuals(args, FB_PARAM_OFFSET_FUNC, currentScope);
+    loadActuals(args, FB_PARAM_OFFSET_FUNC, currentScope, stackOffset);
     currentFrame->incOffset(args.size() + FB_PARAM_OFFSET_FUNC);
     // Branch and link.
     auto linkLabel = getLabel();
@@ -2623,7 +2623,7 @@ public:
     auto stackOffset = currentFrame->getOffset();
     // Actual parameters.
     genCallActuals(args, currentScope);
-    loadActuals(args, FB_PARAM_OFFSET_PROC, currentScope);
+    loadActuals(args, FB_PARAM_OFFSET_PROC, currentScope, stackOffset);
     currentFrame->incOffset(args.size() + FB_PARAM_OFFSET_PROC);
     // Branch and link.
     auto linkLabel = getLabel();
